@@ -81,8 +81,8 @@ func genC04(e *emitter, tier string, seed int64) {
 		`{"a": [1, {"b": [7, 8]}], "c": {"d": {"e": 9}}, "s": "str"}`,
 		`[]`, `{}`, `[[[]]]`,
 	}
-	keys := []string{"0", "1", "2", "-1", "-3", "5", `"a"`, `"b"`, `"c"`, `"d"`, `"zz"`, "1.5", "nil", "true", "k0", "ks"}
-	pre := "k0 = 0\nks = \"a\"\n"
+	keys := []string{"0", "1", "2", "-1", "-3", "5", `"a"`, `"b"`, `"c"`, `"d"`, `"zz"`, "1.5", "nil", "true", "k0", "ks", "mx", "mn"}
+	pre := "k0 = 0\nks = \"a\"\nmx = 9223372036854775807\nmn = -9223372036854775807 - 1\n"
 	var paths []string
 	for _, a := range keys {
 		paths = append(paths, "["+a+"]")
